@@ -402,6 +402,17 @@ func (d *driver) runMultiproof(w emitter, pid int, pr *proofProg) {
 			w.emit(ve)
 		}
 		verify(0, perturbSpec{What: "none"}, label, proof, Cs, ys, zs)
+		if len(pr.Perturb) == 0 && n <= 40 {
+			// a verification that ERRORS (seven L points, then none at all), then the honest statement once more: whatever the failing
+			// calls leave behind must not change the honest verdict
+			bad := cloneProof(proof)
+			bad.IPA.L = bad.IPA.L[:7]
+			verify(1, perturbSpec{What: "lenL", To: "short"}, label, bad, Cs, ys, zs)
+			bad2 := cloneProof(proof)
+			bad2.IPA.L, bad2.IPA.R = nil, nil
+			verify(2, perturbSpec{What: "lenLR", To: "empty"}, label, bad2, Cs, ys, zs)
+			verify(3, perturbSpec{What: "none"}, label, proof, Cs, ys, zs)
+		}
 
 		// a second honest proof for splices (different label)
 		var proof2 *multiproof.MultiProof
